@@ -24,6 +24,7 @@ struct Shared {
     std::mutex m;
     std::condition_variable cv;
     std::timed_mutex tm;
+    std::recursive_mutex rm;
     bool flag = false;
 };
 Shared* S;
@@ -58,6 +59,16 @@ void t0(void*)
     } else if (is("mutex_hb")) {
         std::lock_guard<std::mutex> g(S->m);
         S->data += 1;
+    } else if (is("recursive_mutex")) {
+        std::lock_guard<std::recursive_mutex> g1(S->rm);
+        std::lock_guard<std::recursive_mutex> g2(S->rm);  // the owner may lock again
+        int v = S->data;
+        gsim::yield();
+        S->data = v + 1;
+    } else if (is("endless_loop")) {
+        volatile int spin = 1;
+        while (spin) {
+        }
     } else if (is("uaf")) {
         int* p = new int(5);
         S->ptr.store(p, std::memory_order_release);
@@ -114,6 +125,22 @@ void t1(void*)
     } else if (is("mutex_hb")) {
         std::lock_guard<std::mutex> g(S->m);
         S->data += 1;
+    } else if (is("recursive_mutex")) {
+        if (S->rm.try_lock()) {
+            if (S->rm.try_lock()) {
+                gsim::probe("litmus.recursive.relocked");
+                S->rm.unlock();
+            } else
+                gsim::fail("litmus_forbidden", "the owner's second try_lock on a recursive mutex failed");
+            int v = S->data;
+            gsim::yield();
+            S->data = v + 1;
+            S->rm.unlock();
+        } else {
+            gsim::probe("litmus.recursive.excluded");
+            std::lock_guard<std::recursive_mutex> g(S->rm);
+            S->data += 1;
+        }
     } else if (is("uaf") || is("uaf_safe")) {
         int* q = nullptr;
         for (int i = 0; i < 6 && !q; i++) {
@@ -201,7 +228,7 @@ void run()
     } else if (is("iriw")) {
         if (S->r[0] == 1 && S->r[1] == 0 && S->r[2] == 1 && S->r[3] == 0)
             gsim::probe("litmus.iriw.disagree");
-    } else if (is("mutex_hb")) {
+    } else if (is("mutex_hb") || is("recursive_mutex")) {
         if (S->data != 2) gsim::fail("litmus_forbidden", "mutex-protected counter is %d", S->data);
     } else if (is("adjacent_bytes")) {
         gsim::probe("litmus.adjacent_bytes.no_race");
